@@ -99,7 +99,10 @@ pub fn compile(p: &Plan) -> Script {
             }
             Item::OwnDgram { tag } | Item::ForeignDgram { tag, .. } => {
                 let (sid, own) = if let Item::ForeignDgram { sid, .. } = it { (*sid, false) } else { (0, true) };
-                let mut d = rc::varint(sid / 4);
+                // own datagrams also in non-shortest quarter-id encodings
+                let mut d = Vec::new();
+                let shortest = rc::varint_len(sid / 4);
+                rc::put_varint_len(sid / 4, [shortest, 2, 4, 8][(*tag as usize) % 4].max(shortest), &mut d);
                 d.extend_from_slice(&payload(*tag, own));
                 acts.push(Act::Datagram { hex: hex(&d) });
                 // paced: the hand-off queue for datagrams has capacity 1
